@@ -47,7 +47,39 @@ def nontrivial(tree):
     return touching >= 2 and nested_under_binding
 
 
+READS = {"read", "param_default_same", "iter_read", "cond_read", "walrus"}
+
+
+def cpython_inlining_bug_shape(tree):
+    """CPython 3.12/3.13 mis-handle a comprehension whose target name is also read by a sibling
+    lambda/comprehension of the same FUNCTION scope (UnboundLocalError / NameError in plain Python,
+    e.g. `lambda: [[y for y in [1]], [y for t in [2]]]` on 3.12.1). A class body is not a function
+    scope, but its lowered form is hosted in a lambda, so such class bodies would diverge because of
+    the interpreter bug, not because of the translation. The shape is outside the domain
+    (DESIGN 2.8 rule 7); it is a soundness filter, not a known finding."""
+    for node, path in scope.walk(tree):
+        if node[0] != "class":
+            continue
+        kids = [c for c in node[2] if c[0] in ("lambda", "comp")]
+        targets = [c for c in kids if c[0] == "comp" and c[1] in ("target", "target_tuple")]
+        if not targets:
+            continue
+        for c in kids:
+            for sub, _ in scope.walk(c):
+                if sub is c and c in targets:
+                    continue
+                if sub[1] != "none" and not (c in targets and sub is c):
+                    if c not in targets or sub is not c:
+                        others = [k for k in kids if k is not c] if c in targets else [k for k in targets]
+                        if others:
+                            return True
+    return False
+
+
 def check_tree(part, tree, init, idx, second=None):
+    if cpython_inlining_bug_shape(tree) or (second is not None and cpython_inlining_bug_shape(second)):
+        part["discarded"]["cpython-comprehension-inlining-bug-shape"] += 1
+        return None
     src = scope.render(tree, init, second)
     try:
         compile(src, "<scope>", "exec")
